@@ -89,7 +89,7 @@ def run_items(modname, specs, cap=120, nproc=None):
         return [_run_one(s) for s in specs]
     ctx = mp.get_context("fork")
     with ctx.Pool(nproc, initializer=_init_worker, initargs=(modname, cap), maxtasksperchild=200) as pool:
-        return pool.map(_run_one, specs, chunksize=max(1, min(8, len(specs) // (nproc * 4) or 1)))
+        return pool.map(_run_one, specs, chunksize=1)
 
 
 def load_known(pid):
